@@ -18,7 +18,8 @@ from tools import wowm_front as F
 # TLC record -> front-end shape
 # ----------------------------------------------------------------------------------------------
 
-def _raise_members(ms, rename):
+def _raise_members(ms, rename, fp=""):
+    """fp: prefix for member identifiers (declarations, count references, if variables, optional names)"""
     out = []
     for m in ms:
         if m["m"] == "decl":
@@ -26,32 +27,36 @@ def _raise_members(ms, rename):
             if m["arr"] == "fixed":
                 arr = {"size": "fixed", "n": m["n"]}
             elif m["arr"] == "var":
-                arr = {"size": "var", "field": m["field"]}
+                arr = {"size": "var", "field": fp + m["field"]}
             elif m["arr"] == "endless":
                 arr = {"size": "endless"}
             out.append({"m": "decl", "type": rename(m["type"]), "upcast": m["upcast"] or None, "array": arr,
-                        "name": m["name"], "const": m["const"] if m["const"] != "" else None, "tags": {}})
+                        "name": fp + m["name"], "const": m["const"] if m["const"] != "" else None, "tags": {}})
         elif m["m"] == "if":
-            arms = [{"conds": [{"var": c["var"], "op": c["op"], "val": c["val"]} for c in a["conds"]],
-                     "body": _raise_members(a["body"], rename)} for a in m["arms"]]
+            arms = [{"conds": [{"var": fp + c["var"], "op": c["op"], "val": c["val"]} for c in a["conds"]],
+                     "body": _raise_members(a["body"], rename, fp)} for a in m["arms"]]
             out.append({"m": "if", "arms": arms,
-                        "else": _raise_members(m["els"], rename) if m["haselse"] else None})
+                        "else": _raise_members(m["els"], rename, fp) if m["haselse"] else None})
         elif m["m"] == "optional":
-            out.append({"m": "optional", "name": m["name"], "body": _raise_members(m["body"], rename), "tags": {}})
+            out.append({"m": "optional", "name": fp + m["name"], "body": _raise_members(m["body"], rename, fp),
+                        "tags": {}})
         else:
             raise ValueError("unknown member kind %r" % (m["m"],))
     return out
 
 
-def raise_program(rec, prefix, slot_name, slot_opcode, versions="1.12"):
+def raise_program(rec, prefix, slot_name, slot_opcode, versions="1.12", unique_fields=True):
     """rec: REPLAY record of WowmGrammar.  Local type names (E1, F2, S1) get `prefix`; the message takes the
-    name and the opcode (raw text) of the slot it replaces."""
+    name and the opcode (raw text) of the slot it replaces.  unique_fields: member identifiers (f1, f2, ...,
+    unique inside their container as the language demands) additionally get a prefix that makes them
+    unique in the whole workspace."""
     local = {d["name"] for d in rec["defs"]} | {s["name"] for s in rec["structs"]}
 
     def rename(t):
         return prefix + t if t in local else t
 
     tags = lambda: {"versions": [versions]}
+    fpre = (lambda c: "%s%s_" % (prefix.lower(), c.lower())) if unique_fields else (lambda c: "")
     objs = []
     for d in rec["defs"]:
         ens = [{"name": e["name"], "value": {"str": e["lit"]} if e["str"] else e["lit"], "tags": {}}
@@ -60,9 +65,9 @@ def raise_program(rec, prefix, slot_name, slot_opcode, versions="1.12"):
                      "tags": tags()})
     for s in rec["structs"]:
         objs.append({"kind": "struct", "name": rename(s["name"]), "opcode": None,
-                     "members": _raise_members(s["members"], rename), "tags": tags()})
+                     "members": _raise_members(s["members"], rename, fpre(s["name"])), "tags": tags()})
     objs.append({"kind": rec["kind"], "name": slot_name, "opcode": slot_opcode,
-                 "members": _raise_members(rec["members"], rename), "tags": tags()})
+                 "members": _raise_members(rec["members"], rename, fpre("m")), "tags": tags()})
     return objs
 
 
